@@ -578,6 +578,7 @@ func (st *Runtime) executeList(list *ListNode) (returnValue reflect.Value) {
 func (st *Runtime) executeTry(try *TryNode) (returnValue reflect.Value) {
 	writer := st.Writer
 	buf := new(bytes.Buffer)
+	scope, context, content := st.scope, st.context, st.content
 
 	defer func() {
 		r := recover()
@@ -586,6 +587,8 @@ func (st *Runtime) executeTry(try *TryNode) (returnValue reflect.Value) {
 		if r == nil {
 			io.Copy(writer, buf)
 		} else {
+			// the body was abandoned somewhere below range/if/yield/include: undo what it pushed
+			st.scope, st.context, st.content = scope, context, content
 			// st.Writer is already set to its original value since the later defer ran first
 			if try.Catch != nil {
 				if try.Catch.Err != nil {
